@@ -69,6 +69,11 @@ LEVEL = {
         "design_ref": "5.10", "note": "'eventually' is a 30 s deadline with a second file event; atomicity is judged from time-ordered lookups",
         "technique": "property-based differential testing (rapid) against an independent file parser + fault-sequence generation for autorefresh",
     },
+    "C18": {
+        "text": "Round-trip testing of config.Load: configurations are generated as structures, rendered to YAML in many spellings and the loaded result must equal the structure or be rejected for exactly the listed reasons; byte-mutated renderings and (thorough) coverage-guided fuzzing check 'errors, not panics'.",
+        "design_ref": "5.18", "note": "the renderer is trusted to produce the YAML it intends; YAML's own scalar conversions are excluded from the vocabulary",
+        "technique": "property-based round-trip testing (rapid) over a YAML grammar + mutation + native go fuzzing",
+    },
 }
 
 NOT_APPLICABLE = [
@@ -85,6 +90,8 @@ ENGINES = [
      "kind_free_text": "direct calls of the handlers returned by each Plugin.Setup4/Setup6 with wire-built requests; decision-table enumeration, independent option encoders, round-trip oracle"},
     {"name": "static", "path": "harness/static", "serves_properties": ["C10"],
      "kind_free_text": "lease files from a grammar through file.Plugin.Setup4/Setup6, independent parser as model, autorefresh rewrite sequences, dual-stack"},
+    {"name": "conf", "path": "harness/conf", "serves_properties": ["C18"],
+     "kind_free_text": "structured configurations rendered to YAML and loaded with config.Load; mutated text; FuzzConfigLoad"},
     {"name": "pd6", "path": "harness/pd6", "serves_properties": ["C08", "C09"],
      "kind_free_text": "DHCPv6 prefix-delegation message histories (wire-built requests) through prefix.Plugin.Setup6 against an owner table and held sets"},
 ]
